@@ -130,6 +130,12 @@ func (l *Listener) Wait(ctx context.Context) error {
 	// we wait either until the channel got closed or the context is done
 	select {
 	case <-l.channel:
+		// The channel is shared by all listeners of the value and it is also closed when the last of them de-registers,
+		// so a closed channel only means "notified" if this listener was not de-registered in the meantime.
+		if l.deregistered.Load() {
+			return ErrListenerDeregistered
+		}
+
 		return nil
 	case <-l.deregisteredChan:
 		return ErrListenerDeregistered
